@@ -65,7 +65,44 @@ func (c *ctx) mapOrder() {
 					case *ast.AssignStmt:
 						for i, l := range s.Lhs {
 							if ix, ok := astx.Unparen(l).(*ast.IndexExpr); ok && isMapType(info.TypeOf(ix.X)) {
-								continue // insertion into a map/set
+								// insertion into a map/set: the same in every order if no two iterations can write the
+								// same entry (the entry is chosen by the range key) or all write the same thing (a set).
+								// Keyed by the range VALUE, two keys with one value write one entry: the last one wins,
+								// in Go's randomised order (an inverted map)
+								keyObj := astx.IdentObj(info, rs.Key)
+								byKey := false
+								if keyObj != nil {
+									ast.Inspect(ix.Index, func(m ast.Node) bool {
+										if id, ok := m.(*ast.Ident); ok && astx.ObjOf(info, id) == keyObj {
+											byKey = true
+										}
+										return true
+									})
+								}
+								constant := false
+								if i < len(s.Rhs) {
+									r := astx.Unparen(s.Rhs[i])
+									if tv, ok := info.Types[r]; ok && tv.Value != nil {
+										constant = true
+									}
+									if cl, ok := r.(*ast.CompositeLit); ok && len(cl.Elts) == 0 {
+										constant = true
+									}
+								}
+								valObj := astx.IdentObj(info, rs.Value)
+								usesValue := false
+								if valObj != nil {
+									ast.Inspect(ix.Index, func(m ast.Node) bool {
+										if id, ok := m.(*ast.Ident); ok && astx.ObjOf(info, id) == valObj {
+											usesValue = true
+										}
+										return true
+									})
+								}
+								if usesValue && !byKey && !constant && s.Tok == token.ASSIGN {
+									bad = "the loop body stores into " + astx.Short(ix.X) + " under a key taken from the map's VALUES: when two entries share a value the last one written wins, in iteration order"
+								}
+								continue
 							}
 							if id, ok := l.(*ast.Ident); ok && i < len(s.Rhs) {
 								if call, ok := s.Rhs[i].(*ast.CallExpr); ok && astx.IsBuiltin(info, call, "append") && astx.IdentObj(info, call.Args[0]) == astx.ObjOf(info, id) {
